@@ -13,7 +13,7 @@
    survivor, survivors keep excluding each other, a newcomer gets it at once. *)
 From Coq Require Import List Arith NArith Bool.
 Import ListNotations.
-Require Import Aiuti.FLock Aiuti.FLockInv Aiuti.FLockTL Aiuti.FLockFD Aiuti.FLockMutex Aiuti.FLockExec Aiuti.FLockCrash Aiuti.FLockSound.
+Require Import Aiuti.FLock Aiuti.FLockInv Aiuti.FLockTL Aiuti.FLockFD Aiuti.FLockMutex Aiuti.FLockExec Aiuti.FLockCrash Aiuti.FLockSound Aiuti.FLockContract Aiuti.FLockMon13.
 Require Aiuti.Case_C13.
 
 (* After the crash of p, at ANY point of ANY run: (1) no descriptor of p is open any
@@ -87,6 +87,34 @@ Theorem monitor_sound :
     (2 <= scen -> w_held = true /\ probe1 = false /\ probe2 = true).
 Proof. exact S13.monitor_sound_C13_lemma. Qed.
 Print Assumptions monitor_sound.
+
+(* Completeness of the same monitor w.r.t. the model (it never rejects what the model predicts):
+   for EVERY victim program on its own object (any flavour of acquire / release, any length),
+   killed after ANY number of primitive steps — i.e. at every pc of acquire / release the
+   enumeration can reach — in each of the three scenarios (alone / a survivor holds / a survivor
+   starts waiting after the death), provided the victim respected the usage contract up to its
+   death (viol = false), the waiter/probe observations the model predicts are accepted by
+   Case_C13.ok.  Together with the agreement clause of the verdict this says: an alarm of the
+   C13 check on the real library is a disagreement with the model, never a monitor artefact.
+   Not covered (named): w_before = true (waiter started while the victim runs: the interleaved
+   replay [go] of model_trace) and died = false (the victim exited before the kill). *)
+Theorem monitor_complete :
+  forall reent dflt prog scen vops vres a b c ops rs wh p1 p2,
+    scen <= 2 -> (forall cl, In cl prog -> call_obj cl = 0) ->
+    viol (victim_end Case_C13.FUEL reent dflt prog scen (length vops)) = false ->
+    Case_C13.model_trace (Case_C13.CCrash reent dflt prog scen false vops vres true a b c) = (ops, rs, wh, p1, p2) ->
+    Case_C13.ok (Case_C13.CCrash reent dflt prog scen false vops vres true wh p1 p2) = true.
+Proof. exact monitor_complete_C13_lemma. Qed.
+Print Assumptions monitor_complete.
+
+(* the hypotheses of monitor_complete hold on a concrete case: reentrant victim killed in the
+   middle of its release (after unlock, before close), survivor waiting afterwards *)
+Example monitor_complete_example :
+  let prog := [Case_C13.acq_blk 0; Case_C13.acq_blk 0; CRel 0 true] in
+  viol (victim_end Case_C13.FUEL true TNeg prog 2 7) = false /\
+  (Case_C13.model_trace (Case_C13.CCrash true TNeg prog 2 false [1;2;3;4;1;2;1] [] true false false false)
+   = ([1; 2; 3; 4; 1; 2; 1], [RTrue; RTrue], true, false, true)).
+Proof. vm_compute. split; reflexivity. Qed.
 
 (* Non-vacuity.  Process 1 (thread 0, object 0) holds the lock; process 2 (thread 1,
    object 1) is idle.  Crash of process 1: the holder was a descriptor of process 1 and
